@@ -84,6 +84,12 @@ U_H = {"g": [[], [0], [1], [2], [3]], "ch": [[], [1], [3], [4], [1, 5]], "late":
 # (child of r1) too; r0 and r2 still reference texts named after them, and the source holds those texts
 U_S = {"g": [[46], [0], [1, 47], [2]], "ch": [[1], [3], [4], [1]], "late": [],
        "gdef": {"46": {"ps": [], "ch": []}, "47": {"ps": [1], "ch": [1, 3, 6]}}}
+# witness of the former finding C03-smart-missing-text-keys (fixed by /repo e1faee4): the text (l-id, r4) is a knit
+# delta against (l-id, r2), and r2 is not an ancestor of r4 in the sparse source: the sink must ask the (smart)
+# source for the text key ('texts', l-id, r2)
+U_K = {"g": [[], [45], [47, 46], [48], [49, 0]], "ch": [[3], [7], [1], [3, 7], [3, 5, 7]], "late": [],
+       "gdef": {"45": {"ps": [0], "ch": [1, 3, 6]}, "46": {"ps": [], "ch": [1]}, "48": {"ps": [0], "ch": [3, 4]},
+                "49": {"ps": [2], "ch": [1, 3, 6]}}}
 U_B = {"g": [[], [0], [0], [1, 2], [2, 1], [3, 4], [4, 3, 50]], "ch": [[], [1], [3], [4], [6], [1, 5], [7]], "late": []}
 
 
@@ -121,6 +127,9 @@ def corpus():
         out.append(_case(U_S, sf, tf, "smart", "local", seed=[1], r=3, fg=True))
         out.append(_case(U_S, sf, tf, seed=[0], r=2, extra=[46], entry="pull"))
     out.append(_case(U_S, fb=[0], r=3, tv="smart"))
+    out.append(_case(U_K, "pack-0.92", "pack-0.92", "smart", "local", seed=[1], r=4))      # regression: must pass
+    out.append(_case(U_K, "pack-0.92", "pack-0.92", "smart", "smart", seed=[0], r=4, fg=True))
+    out.append(_case(U_K, "pack-0.92", "pack-0.92", "local", "local", seed=[1], r=4))
     out.append(_case(U_B, seed=[1], r=0, entry="all"))
     out.append(_case(U_A, fb=[2], r=0, entry="all", fg=True))
     out.append(_case(U_A, "pack-0.92", "2a", seed=[3], r=0, entry="all"))
@@ -183,11 +192,6 @@ def _random_case(rng, u, pairs=FMT_PAIRS):
     if late and rng.random() < 0.35:
         # unclosed target: the search result may be disconnected; the smart source replays the search recipe
         fg, sv, tv = True, "smart", rng.choice(["local", "local", "smart"])
-    if u.get("gdef") and tf != "2a":
-        # known finding C03-smart-missing-text-keys (notes/C03-known-findings.json): a knit target may have to ask
-        # the source for a text's delta basis, and the smart verb loses the revision id of text keys; until that
-        # is repaired these cases use a local source (they are compared on revision sets only anyway)
-        sv = "local"
     entry = "fetch"
     if r < n and not late and daglib.lefthand_present(g, r) and not (sf == "2a" and tf != "2a") and rng.random() < 0.4:
         entry = rng.choice(["pull", "push"])
